@@ -66,7 +66,7 @@ CHECKS = {
          'Bounded exhaustive exploration: 4 literal-typed grammars x every input up to length 3-4 (quick) / 4-6 (thorough) x 2 compilers; the constant evaluator doubles as a complete undefined-behaviour oracle for the failure paths. Plus literals of 100..2049 characters and nesting to 600 for three grammars (one-dimensional sweep).',
          'Results are ints; a context grammar is not included.', '3 C07'),
  'C15': ('explicit enumeration of call histories + stateless preemption-bounded schedule exploration (baton-passing scheduler, choice-sequence replay), read-only parser pages, static-data image comparison; ThreadSanitizer as side condition',
-         'Model checking of the real code: all call sequences up to depth 3 (quick) / 4 (thorough) over 15 calls (one of them re-entrant: a functor starts a second parse on the same object); all schedules with at most 2 preemptions for 12 call pairs on 2 threads; all schedules with at most 1 (quick) / 2 (thorough) preemptions for 6 call triples on 3 threads.',
+         'Model checking of the real code: all call sequences up to depth 3 (quick) / 4 (thorough) over 17 calls (one re-entrant: a functor starts a second parse on the same object; two left by an exception thrown from a functor); all schedules with at most 2 preemptions for 12 call pairs on 2 threads; all schedules with at most 1 (quick) / 2 (thorough) preemptions for 6 call triples on 3 threads.',
          'Not covered: more than 3 threads under the scheduler, more than 2 preemptions, weak memory orderings.', '3 C15'),
  'C13': ('exhaustive enumeration of contextual/non-contextual functor assignments x context categories x inputs on compiled parsers',
          'Bounded exhaustive exploration of a finite configuration space (16 functor assignments x 6 call forms) crossed with every input up to the bound; every functor call is compared with the reduction sequence of the documented driver. A second grammar (rules of 0/1/3/5 symbols, typed term, error rule) runs in 10 assignments under 5 call forms incl. verbose; helper functors attached with >>= are covered too.',
